@@ -17,14 +17,17 @@
 (* content    one value per frame unit of the array                        *)
 (* ret        what the last action returned (compared with the real code)  *)
 (* crashed    a user touched a map that was already unmapped               *)
+(* cmode      access mode of the cached map ("none", "r", "rp"): the first  *)
+(*            user's accessmode argument decides ("d" = the handle's own   *)
+(*            mode, r+ here); later users share the map whatever they ask *)
 (***************************************************************************)
 EXTENDS Integers, Sequences, FiniteSets, TLC
 
-CONSTANTS Gens, Frames, MaxCtx, NUnits, Algorithm, MaxMaps
+CONSTANTS Gens, Frames, MaxCtx, NUnits, Algorithm, MaxMaps, Modes
 
-VARIABLES cache, nusers, mapped, holds, owner, gstate, pos, nctx, content, ret, crashed
+VARIABLES cache, nusers, mapped, holds, owner, gstate, pos, nctx, content, ret, crashed, cmode
 
-vars == <<cache, nusers, mapped, holds, owner, gstate, pos, nctx, content, ret, crashed>>
+vars == <<cache, nusers, mapped, holds, owner, gstate, pos, nctx, content, ret, crashed, cmode>>
 Ctx == 1..MaxCtx
 CtxNames == <<"ctx1", "ctx2", "ctx3", "ctx4">>
 CtxUser(c) == CtxNames[c]
@@ -34,38 +37,39 @@ Init == /\ cache = 0 /\ nusers = 0 /\ mapped = [m \in 1..MaxMaps |-> FALSE]
         /\ holds = [u \in Users |-> 0] /\ owner = [u \in Users |-> FALSE]
         /\ gstate = [g \in Gens |-> "new"] /\ pos = [g \in Gens |-> 0]
         /\ nctx = 0 /\ content = [i \in 1..NUnits |-> 0] /\ ret = <<>> /\ crashed = FALSE
+        /\ cmode = "none"
 
 FreeMap(m) == ~mapped[m] /\ \A u \in Users : holds[u] # m
 (* _open_array entry for user u *)
-Acquire(u) ==
+Acquire(u, md) ==
   IF cache # 0
   THEN /\ holds' = [holds EXCEPT ![u] = cache] /\ owner' = [owner EXCEPT ![u] = FALSE]
-       /\ nusers' = nusers + 1 /\ UNCHANGED <<cache, mapped>>
+       /\ nusers' = nusers + 1 /\ UNCHANGED <<cache, mapped, cmode>>
   ELSE /\ \E f \in 1..MaxMaps : FreeMap(f)
        /\ LET m == CHOOSE f \in 1..MaxMaps : FreeMap(f) /\ \A h \in 1..MaxMaps : FreeMap(h) => f <= h IN
             /\ cache' = m /\ mapped' = [mapped EXCEPT ![m] = TRUE]
             /\ holds' = [holds EXCEPT ![u] = m] /\ owner' = [owner EXCEPT ![u] = TRUE]
-       /\ nusers' = 1
+       /\ nusers' = 1 /\ cmode' = (IF md = "r" THEN "r" ELSE "rp")
 
 (* _open_array exit (the finally block) for user u *)
 Release(u) ==
   /\ holds' = [holds EXCEPT ![u] = 0] /\ owner' = [owner EXCEPT ![u] = FALSE]
   /\ IF Algorithm = "refcount"
      THEN IF nusers = 1
-          THEN /\ mapped' = [mapped EXCEPT ![holds[u]] = FALSE] /\ cache' = 0 /\ nusers' = 0
-          ELSE /\ nusers' = nusers - 1 /\ UNCHANGED <<mapped, cache>>
+          THEN /\ mapped' = [mapped EXCEPT ![holds[u]] = FALSE] /\ cache' = 0 /\ nusers' = 0 /\ cmode' = "none"
+          ELSE /\ nusers' = nusers - 1 /\ UNCHANGED <<mapped, cache, cmode>>
      ELSE (* pinned: only the opener closes, whoever else is still using it *)
           IF owner[u]
-          THEN /\ mapped' = [mapped EXCEPT ![holds[u]] = FALSE] /\ cache' = 0 /\ nusers' = 0
-          ELSE /\ nusers' = nusers /\ UNCHANGED <<mapped, cache>>
+          THEN /\ mapped' = [mapped EXCEPT ![holds[u]] = FALSE] /\ cache' = 0 /\ nusers' = 0 /\ cmode' = "none"
+          ELSE /\ nusers' = nusers /\ UNCHANGED <<mapped, cache, cmode>>
 
 (* reading frame k of generator g through the map it holds *)
 FrameVals(g, k) == [i \in 1..(Frames[g][k][2] - Frames[g][k][1]) |-> content[Frames[g][k][1] + i]]
 
 (* first next(): enters the context, yields the first frame (or is exhausted) *)
-Start(g) ==
-  /\ gstate[g] = "new" /\ ~crashed
-  /\ Acquire(g)
+Start(g, md) ==
+  /\ gstate[g] = "new" /\ ~crashed /\ md \in Modes
+  /\ Acquire(g, md)
   /\ IF Len(Frames[g]) = 0
      THEN FALSE
      ELSE /\ gstate' = [gstate EXCEPT ![g] = "active"] /\ pos' = [pos EXCEPT ![g] = 1]
@@ -80,7 +84,7 @@ Advance(g) ==
              THEN ret' = FrameVals(g, pos[g] + 1) /\ UNCHANGED crashed
              ELSE crashed' = TRUE /\ ret' = <<-1>>
           /\ pos' = [pos EXCEPT ![g] = pos[g] + 1]
-          /\ UNCHANGED <<cache, nusers, mapped, holds, owner, gstate>>
+          /\ UNCHANGED <<cache, nusers, mapped, holds, owner, gstate, cmode>>
      ELSE /\ Release(g) /\ gstate' = [gstate EXCEPT ![g] = "done"] /\ ret' = <<-2>>   \* StopIteration
           /\ UNCHANGED <<pos, crashed>>
   /\ UNCHANGED <<nctx, content>>
@@ -91,9 +95,9 @@ Close(g) ==
   /\ Release(g) /\ gstate' = [gstate EXCEPT ![g] = "done"] /\ ret' = <<>>
   /\ UNCHANGED <<pos, nctx, content, crashed>>
 
-Enter ==
-  /\ nctx < MaxCtx /\ ~crashed
-  /\ Acquire(CtxUser(nctx + 1)) /\ nctx' = nctx + 1 /\ ret' = <<>>
+Enter(md) ==
+  /\ nctx < MaxCtx /\ ~crashed /\ md \in Modes
+  /\ Acquire(CtxUser(nctx + 1), md) /\ nctx' = nctx + 1 /\ ret' = <<>>
   /\ UNCHANGED <<gstate, pos, content, crashed>>
 Exit ==
   /\ nctx > 0 /\ ~crashed
@@ -106,16 +110,18 @@ Read(i) ==
   /\ ~crashed /\ i \in 1..NUnits
   /\ IF TouchOK THEN ret' = <<content[i]>> /\ UNCHANGED crashed
      ELSE crashed' = TRUE /\ ret' = <<-1>>
-  /\ UNCHANGED <<cache, nusers, mapped, holds, owner, gstate, pos, nctx, content>>
+  /\ UNCHANGED <<cache, nusers, mapped, holds, owner, gstate, pos, nctx, content, cmode>>
+(* a write through a read-only cached map is refused by NumPy (WriteThroughOpenMap in Array.tla): *)
+(* such schedules are outside this model                                                           *)
 Write(i) ==
-  /\ ~crashed /\ i \in 1..NUnits
+  /\ ~crashed /\ i \in 1..NUnits /\ (cache = 0 \/ cmode = "rp")
   /\ IF TouchOK THEN content' = [content EXCEPT ![i] = 1 - content[i]] /\ UNCHANGED crashed
      ELSE crashed' = TRUE /\ UNCHANGED content
   /\ ret' = <<>>
-  /\ UNCHANGED <<cache, nusers, mapped, holds, owner, gstate, pos, nctx>>
+  /\ UNCHANGED <<cache, nusers, mapped, holds, owner, gstate, pos, nctx, cmode>>
 
-Next == \/ \E g \in Gens : Start(g) \/ Advance(g) \/ Close(g)
-        \/ Enter \/ Exit
+Next == \/ \E g \in Gens : (\E md \in Modes : Start(g, md)) \/ Advance(g) \/ Close(g)
+        \/ (\E md \in Modes : Enter(md)) \/ Exit
         \/ \E i \in 1..NUnits : Read(i) \/ Write(i)
 Spec == Init /\ [][Next]_vars
 
@@ -127,4 +133,7 @@ HoldersMapped == \A u \in ActiveUsers : holds[u] # 0 /\ mapped[holds[u]]
 NoLeak == (ActiveUsers = {}) => (cache = 0 /\ \A m \in 1..MaxMaps : ~mapped[m])
 (* at most one map is open at any time, and it is the cached one *)
 OneMap == \A m \in 1..MaxMaps : mapped[m] => m = cache
+(* a map that users hold is never exchanged for another one, whatever mode a later user asks for *)
+MapStable == [][(cache # 0 /\ cache' # 0) => (cache' = cache /\ cmode' = cmode)]_vars
+ModeKnown == (cache = 0) <=> (cmode = "none")
 =============================================================================
